@@ -1,12 +1,13 @@
 import SmtpV.Props.C20
 import SmtpV.Spec.Monitors
+import SmtpV.Proofs.ReplyWF
 /-!
 # C04 — one well-formed reply per command, reporting that command's outcome
 
 Clause (d), "never the outcome of an earlier or aborted transaction", for chunked transfers is the
 L3 theorem below (proved in Props/C20.lean for every program and every schedule).  Clauses (a)–(c)
 (syntax, count/order, enhanced-code class) are judged by `Spec.Mon.check4` on recorded traces and
-tied by the correspondence; their theorems are work in progress.
+tied by the correspondence; for the syntax and the class of one-line replies see `C04_reply_syntax` below.
 -/
 namespace SmtpV.Props.C04
 open SmtpV SmtpV.Chunked
@@ -17,5 +18,18 @@ open SmtpV SmtpV.Chunked
 theorem C04_own_verdict (res : Nat → Nat) (prog : List Op) (sched : List Nat) :
     OwnVerdict res (exec false res (Chunked.init prog) sched) :=
   SmtpV.Props.C20.own_verdict_all_schedules res prog sched
+
+open SmtpV.Spec SmtpV.Reply SmtpV.ReplyRT in
+/-- **C04_reply_syntax.**  Whatever one-line reply the server's renderer writes — any code 100..999, any enhanced code
+    (set, or derived from the code when unset), any text without LF: the strict RFC 5321 recogniser that judges the
+    implementation accepts it as exactly one reply with that code, and the enhanced status code it reads off the line is
+    the one rendered — for an unset code that is `class.0.0` of the reply's own class (`C17_unset_class`). -/
+theorem C04_reply_syntax (code : Nat) (h1 : 100 ≤ code) (h2 : code ≤ 999) (enh : Enh) (msg : Bytes)
+    (hm : ∀ b ∈ msg, b ≠ 10) (he : EnhOk (effEnh code enh)) :
+    ReplySyntax.parse (render code enh [msg]) =
+      some [{ code := code, lines := [enhBytes (effEnh code enh) ++ [32] ++ msg] }] ∧
+    ReplySyntax.enhOf (enhBytes (effEnh code enh) ++ [32] ++ msg) =
+      some ((effEnh code enh).a.toNat, (effEnh code enh).b.toNat, (effEnh code enh).c.toNat) :=
+  ⟨reply_syntax_single code h1 h2 enh msg hm he, enhOf_render _ he msg⟩
 
 end SmtpV.Props.C04
